@@ -160,8 +160,16 @@ def run(ctx):
     repeat = 3 if quick else 5
     distinct = set()
     found_input = False
-    for prog in corpus_programs(ctx, quick):
-        res = build_variants(tc, prog, work, variants, repeat)
+    # the third bootstrap stage builds in the background while the programs are compared (it is one long single-threaded job)
+    d = tc["dir"]
+    s3 = os.path.join(d, "stage3_%d" % os.getpid())
+    boot = cf.ThreadPoolExecutor(max_workers=1)
+    boot_f = boot.submit(lambda: C.sh([tc["dora"], "compile", "--internal-compile-boots", "--compiler", os.path.join(d, "stage2"),
+                                       os.path.join(d, "boots.dora-package"), "-o", s3], cwd=d, timeout=1800))
+    plist = corpus_programs(ctx, quick)
+    with cf.ThreadPoolExecutor(max_workers=3) as pex:
+        all_res = list(pex.map(lambda prog: build_variants(tc, prog, work, variants, repeat), plist))
+    for prog, res in zip(plist, all_res):
         stats["programs"] += 1
         for vname, reps in res.items():
             for kind in ("package", "asm", "exe"):
@@ -187,10 +195,8 @@ def run(ctx):
     shutil.rmtree(work, ignore_errors=True)
     shutil.rmtree(os.path.join(C.BUILD, "tmp", "c15src"), ignore_errors=True)
     # bootstrap fixed point: stage3 built by stage2 must equal stage2
-    d = tc["dir"]
-    s3 = os.path.join(d, "stage3_%d" % os.getpid())
-    rc, out = C.sh([tc["dora"], "compile", "--internal-compile-boots", "--compiler", os.path.join(d, "stage2"),
-                    os.path.join(d, "boots.dora-package"), "-o", s3], cwd=d, timeout=1800)
+    rc, out = boot_f.result()
+    boot.shutdown()
     stats["bootstrap"] = "not run"
     if rc != 0 or not os.path.exists(s3):
         ctx.finding("oracle:bootstrap:stage3-build", dict(kind="oracle", log=out[-2000:]),
